@@ -161,43 +161,48 @@ func (st *State) freshVal(prefix string, t types.Type) *Val {
 	return v
 }
 
-// assumeWellFormed adds the type invariants every Go value satisfies: integer
+// wellFormed gives the type invariants every Go value satisfies: integer
 // ranges in int mode, 0 <= len <= cap and off >= 0 for slices, references not
 // beyond the allocation counter.
-func (st *State) assumeWellFormed(v *Val) {
+func (st *State) wellFormed(v *Val) Tm {
 	m := st.m
 	switch v.K {
 	case KInt:
 		if v.T != nil {
 			if ii, ok := basicIntInfo(v.T); ok {
-				st.assume(m.inRange(v.S, ii))
+				return m.inRange(v.S, ii)
 			}
 		}
 	case KPtr, KChan, KMap:
-		st.assume(tm(SBool, "(<= %s %s)", v.S.S, st.alloc.S))
+		return tm(SBool, "(<= %s %s)", v.S.S, st.alloc.S)
 	case KSlice:
 		z := m.idxLit(0)
-		st.assume(and(m.le(z, v.off()), m.le(z, v.ln()), m.le(v.ln(), v.cp()),
+		return and(m.le(z, v.off()), m.le(z, v.ln()), m.le(v.ln(), v.cp()),
 			m.inRange(v.off(), goInt), m.inRange(v.cp(), goInt),
 			m.le(v.cp(), m.lit(maxLen, goInt)), m.le(v.off(), m.lit(maxLen, goInt)),
 			tm(SBool, "(<= %s %s)", v.arr().S, st.alloc.S),
 			// nil slice has zero length and capacity
-			implies(eq(v.arr(), Tm{"0", SInt}), eq(v.cp(), z))))
+			implies(eq(v.arr(), Tm{"0", SInt}), eq(v.cp(), z)))
 	case KString:
 		z := m.idxLit(0)
-		st.assume(and(m.le(z, v.off()), m.le(z, v.ln()), m.inRange(v.ln(), goInt), m.le(v.ln(), m.lit(maxLen, goInt)),
+		return and(m.le(z, v.off()), m.le(z, v.ln()), m.inRange(v.ln(), goInt), m.le(v.ln(), m.lit(maxLen, goInt)),
 			m.le(v.off(), m.lit(maxLen, goInt)),
-			tm(SBool, "(<= %s %s)", v.arr().S, st.alloc.S)))
+			tm(SBool, "(<= %s %s)", v.arr().S, st.alloc.S))
 	case KIface:
-		st.assume(and(tm(SBool, "(>= %s 0)", v.ityp().S), tm(SBool, "(<= %s %s)", v.ival().S, st.alloc.S)))
+		return and(tm(SBool, "(>= %s 0)", v.ityp().S), tm(SBool, "(<= %s %s)", v.ival().S, st.alloc.S))
 	case KFunc:
-		st.assume(tm(SBool, "(<= %s %s)", v.Fs[1].S.S, st.alloc.S))
+		return tm(SBool, "(<= %s %s)", v.Fs[1].S.S, st.alloc.S)
 	case KStruct, KTuple:
+		var cs []Tm
 		for _, f := range v.Fs {
-			st.assumeWellFormed(f)
+			cs = append(cs, st.wellFormed(f))
 		}
+		return and(cs...)
 	}
+	return tTrue
 }
+
+func (st *State) assumeWellFormed(v *Val) { st.assume(st.wellFormed(v)) }
 
 // ---------------------------------------------------------------------------
 // heap arrays
@@ -365,6 +370,28 @@ func ptrOf(v *Val) *Ptr {
 		panic("ptrOf: not a pointer type: " + v.T.String())
 	}
 	return &Ptr{Kind: PObj, Base: v.S, Root: pt.Elem()}
+}
+
+// addrFacts: injectivity of the address constructors, instantiated at p
+// (ground facts keep queries quantifier-free).
+func (p *Ptr) addrFacts(m Mode) Tm {
+	switch p.Kind {
+	case PObj, PBox:
+		if len(p.Path) == 0 {
+			return tTrue
+		}
+		a := p.addrTerm(m)
+		return tm(SBool, "(= (fa_base %s) %s)", a.S, p.Base.S)
+	case PElem:
+		e := tm(SInt, "(elemaddr %s %s)", p.Base.S, p.Idx.S)
+		f := and(tm(SBool, "(= (ea_arr %s) %s)", e.S, p.Base.S), tm(SBool, "(= (ea_idx %s) %s)", e.S, p.Idx.S))
+		if len(p.Path) == 0 {
+			return f
+		}
+		a := p.addrTerm(m)
+		return and(f, tm(SBool, "(= (fa_base %s) %s)", a.S, e.S))
+	}
+	return tTrue
 }
 
 // addrTerm gives an Int term identifying the address (for ghost maps and lock names).
